@@ -9,12 +9,19 @@ import (
 	"os"
 	"path/filepath"
 	"strings"
+	"syscall"
 
 	"github.com/JunNishimura/Goit/internal/file"
 	"github.com/JunNishimura/Goit/internal/object"
 	"github.com/JunNishimura/Goit/internal/store"
 	"github.com/spf13/cobra"
 )
+
+// isMissing reports whether a stat error means that the file is not there:
+// it does not exist, or one of its parent directories is not a directory (any more)
+func isMissing(err error) bool {
+	return os.IsNotExist(err) || errors.Is(err, syscall.ENOTDIR)
+}
 
 func add(rootGoitPath, path string, index *store.Index) error {
 	data, err := os.ReadFile(path)
@@ -75,7 +82,7 @@ var addCmd = &cobra.Command{
 			return errors.New("nothing specified, nothing added")
 		}
 		for _, arg := range args {
-			if _, err := os.Stat(arg); os.IsNotExist(err) {
+			if _, err := os.Stat(arg); isMissing(err) {
 				// If the file does not exist but is registered in the index, delete it from the index
 				// but not delete here, just check it
 				cleanedArg := filepath.Clean(arg)
@@ -96,7 +103,7 @@ var addCmd = &cobra.Command{
 			}
 
 			// If the file does not exist but is registered in the index, delete it from the index
-			if _, err := os.Stat(arg); os.IsNotExist(err) {
+			if _, err := os.Stat(arg); isMissing(err) {
 				_, _, isEntryFound := client.Idx.GetEntry([]byte(cleanedArg))
 				if !isEntryFound {
 					return fmt.Errorf(`path "%s" did not match any files`, arg)
